@@ -51,6 +51,7 @@ def check(ctx):
     ctx.rule("GRD-empty", "identity-less reductions reachable from rendering are guarded against empty operands")
     ctx.rule("GRD-null", "no subscript/attribute on a possibly-null geometry element without an is-not-None fact")
     ctx.rule("SIB-pad", "every cell list of a column block and the row numbers pass util.upad")
+    ctx.rule("GRD-text", "the cells handed to util.upad are text: no tolist() export (missing -> None) on the way")
     ctx.trust("operation table sa/tables.py")
     ents = entries(repo)
     ctx.count("rendering entry points", len(ents), 12)
@@ -436,6 +437,16 @@ def check(ctx):
             it_ = lp_.iter
             if norm(it_) == f"{ts.params[0]}.items()" and isinstance(lp_.target, ast.Tuple) and len(lp_.target.elts) == 2:
                 loopvar = norm(lp_.target.elts[0])
+        # cells are TEXT: Vector.tolist() (and .item()-style exports) turn the missing value of a string vector -- '' -- into
+        # None, which util.upad / ulen cannot measure.  The cell list is built with str(x) or taken as the string vector itself.
+        ex_ = _expand20(ts, b.args[0], b) if isinstance(b, ast.Call) and b.args else None
+        nones = [c_ for c_ in (ast.walk(ex_) if ex_ is not None else []) if isinstance(c_, ast.Call) and isinstance(c_.func, ast.Attribute)
+                 and c_.func.attr == "tolist"]
+        ctx.ob("GRD-text", ts, "cells handed to util.upad are text", nones[0] if nones else blocks[0], not nones,
+               "no cell list is exported with tolist()" if not nones else
+               f"{norm(nones[0])[:70]} exports the displayed cells with tolist(), which maps every missing value to None (a missing string is '' "
+               f"and becomes None too): util.upad then measures None and raises TypeError for a column whose displayed cells are all blank "
+               f"or contain a missing string", clause="never raises ... for every missing value")
         ok = (loopvar or "colname") in elts and "dtype_label" in elts and "to_strings" in elts
         ctx.ob("SIB-pad", ts, "block lists column name, dtype label and cells", blocks[0], ok,
                "name, dtype label and cells are all part of the padded list" if ok else
